@@ -94,6 +94,17 @@ Theorem no_closing_event_is_open_ended : forall a v,
 Proof. exact open_ended. Qed.
 Print Assumptions no_closing_event_is_open_ended.
 
+(* a record is the disjunction of its entries; a larger record never loses a match *)
+Theorem record_is_disjunction_of_entries : forall v1 v2 q,
+  is_affected (v1 ++ v2) q = is_affected v1 q || is_affected v2 q.
+Proof. exact is_affected_app. Qed.
+Print Assumptions record_is_disjunction_of_entries.
+
+Theorem more_entries_never_lose_a_match : forall v1 v2 q,
+  (forall a, In a v1 -> In a v2) -> is_affected v1 q = true -> is_affected v2 q = true.
+Proof. exact is_affected_monotone. Qed.
+Print Assumptions more_entries_never_lose_a_match.
+
 (* non-vacuity: a well-formed record listed out of order, with "0", fixed and last_affected *)
 Definition ex_events : list event :=
   [ {| e_kind := Fixed; e_zero := false; e_rank := 3 |};
